@@ -37,6 +37,8 @@ func c06Scenario(c *choice.Ctx, rep *report.R, prop string, nCalls, depth int) {
 		defer env.UninstallOwn()
 	}
 	defer env.UninstallOwn()
+	pauseBegin(c)
+	defer pauseEnd()
 	d := env.NewDialer("tcp")
 	tr := NewReuseConnTransport(ReuseConnOpts{DialContext: d.Dial, IdleTimeout: 10 * time.Second})
 	calls := make([]*call, nCalls)
@@ -81,7 +83,7 @@ func c06Scenario(c *choice.Ctx, rep *report.R, prop string, nCalls, depth int) {
 		}
 	}
 	fail := func(sig, msg string) {
-		rep.Violate(prop+":"+sig, fmt.Sprintf("%s\n  events: %s", msg, strings.Join(trace, " ")), map[string]any{"Choices": c.Choices()})
+		rep.Violate(prop+":"+sig, fmt.Sprintf("%s\n  events: %s%s", msg, strings.Join(trace, " "), pauseNote()), map[string]any{"Choices": c.Choices()})
 	}
 	cs := func(ci int) *c06Conn {
 		if conns[ci] == nil {
@@ -96,7 +98,7 @@ func c06Scenario(c *choice.Ctx, rep *report.R, prop string, nCalls, depth int) {
 			if t := own.Tainted(d.ImplEnd(ci).Written()); t != "" {
 				fail("tainted-wire", fmt.Sprintf("bytes written on connection %d contain %s: %x", ci, t, d.ImplEnd(ci).Written()))
 			}
-			if _, rest := env.SplitFrames(d.ImplEnd(ci).Written()); rest != 0 && d.ImplEnd(ci).StalledWrites() == 0 {
+			if _, rest := env.SplitFrames(d.ImplEnd(ci).Written()); rest != 0 && d.ImplEnd(ci).StalledWrites() == 0 && !paused() {
 				fail("partial-frame", fmt.Sprintf("connection %d carries an incomplete or garbled frame: %x", ci, d.ImplEnd(ci).Written()))
 			}
 			if len(qs) > st.replied+1 {
@@ -249,7 +251,7 @@ func c06Scenario(c *choice.Ctx, rep *report.R, prop string, nCalls, depth int) {
 		ev.do()
 		wait()
 		check()
-		if strings.HasPrefix(ev.name, "advance") {
+		if strings.HasPrefix(ev.name, "advance") && !paused() {
 			for _, cl := range calls {
 				if cl.inflight() && !time.Now().Before(cl.deadline) {
 					fail("missed-deadline", fmt.Sprintf("exchange %d still running at its deadline", cl.idx))
